@@ -27,7 +27,7 @@ MUTANTS = [
      ["C01", "C02", "C03"]),
     ("cached-reversed-order", B,
      "    unknown_sorted = all_sorted[np.logical_not(game.are_values_known()[all_sorted])]\n    for coalition in unknown_sorted:\n        sub_coalitions = all_coalitions[coal_structure[coalition] == 1]\n        complementary_coalitions = coalition ^ sub_coalitions\n        lower_bound = np.max(game.get_lower_bounds()[sub_coalitions] + game.get_lower_bounds()[complementary_coalitions])\n        game.set_lower_bound(lower_bound, Coalition(coalition))\n\n    for coalition in unknown_sorted:\n        super_coalitions = all_coalitions[coal_structure[coalition] == 2]\n        known_super_coalitions = super_coalitions[game.are_values_known()[super_coalitions]]\n        complementary_coalitions = coalition ^ known_super_coalitions\n        upper_bound = np.min(game.get_lower_bounds()[known_super_coalitions] - game.get_lower_bounds()[complementary_coalitions])",
-     "    unknown_sorted = all_coalitions[np.logical_not(game.are_values_known()[all_coalitions])]\n    for coalition in unknown_sorted:\n        sub_coalitions = all_coalitions[coal_structure[coalition] == 1]\n        complementary_coalitions = coalition ^ sub_coalitions\n        lower_bound = np.max(game.get_lower_bounds()[sub_coalitions] + game.get_lower_bounds()[complementary_coalitions])\n        game.set_lower_bound(lower_bound, Coalition(coalition))\n\n    for coalition in unknown_sorted:\n        super_coalitions = all_coalitions[coal_structure[coalition] == 2]\n        known_super_coalitions = super_coalitions[game.are_values_known()[super_coalitions]]\n        complementary_coalitions = coalition ^ known_super_coalitions\n        upper_bound = np.min(game.get_lower_bounds()[known_super_coalitions] - game.get_lower_bounds()[complementary_coalitions])",
+     "    unknown_sorted = all_sorted[np.logical_not(game.are_values_known()[all_sorted])][::-1]\n    for coalition in unknown_sorted:\n        sub_coalitions = all_coalitions[coal_structure[coalition] == 1]\n        complementary_coalitions = coalition ^ sub_coalitions\n        lower_bound = np.max(game.get_lower_bounds()[sub_coalitions] + game.get_lower_bounds()[complementary_coalitions])\n        game.set_lower_bound(lower_bound, Coalition(coalition))\n\n    for coalition in unknown_sorted:\n        super_coalitions = all_coalitions[coal_structure[coalition] == 2]\n        known_super_coalitions = super_coalitions[game.are_values_known()[super_coalitions]]\n        complementary_coalitions = coalition ^ known_super_coalitions\n        upper_bound = np.min(game.get_lower_bounds()[known_super_coalitions] - game.get_lower_bounds()[complementary_coalitions])",
      ["C02", "C03", "C08"]),
     ("uncached-min-instead-of-max", B,
      "lower_bound = np.max(game.get_lower_bounds(sub_coalitions) + game.get_lower_bounds(complementary_coalitions))",
